@@ -19,14 +19,17 @@ RULE = ('Four input classes: (a) token/line-level corruptions of valid generated
         'zero-length directives inserted anywhere, unbalanced conditionals, bad includes); (b) random lines over an '
         'assembly-flavoured token alphabet; (c) one fault with known ground truth injected into a selected unmuted line '
         'of a valid program (unresolvable label, unknown mnemonic, operand no variant accepts, value its field cannot '
-        'hold); (d) unmodified valid programs. With and without --pretty-print in all four formats; the output path '
+        'hold); (d) unmodified valid programs; (e) stress inputs: identifiers, blank runs, nesting and operator chains of 18..70 '
+        'characters in every directive position. With and without --pretty-print in all four formats; the output path '
         'holds a sentinel file in half of the cases. Non-trivial = class (c), or a corrupted/random input of which '
         'the tool accepted or rejected after parsing at least one line (i.e. every case except empty inputs). '
         'Distinct = SHA-1 of the case JSON.')
 ASSUMPTIONS = [
     'termination is decided up to a 10 s watchdog (about 40x the slowest observed valid case); a timeout is only a '
-    'violation when the re-run under the non-progress monitor shows a loop repeating an identical local state; other '
-    'timeouts are reported as inconclusive in evidence',
+    'violation when (a) the re-run under the non-progress monitor shows a loop repeating an identical local state, or '
+    '(b) re-running the same input with its long character runs cut to 10,12,...,22 shows the wall time multiplying '
+    'by >= 2.5 for each +2 characters at least twice (exponential time in the input length); other timeouts are '
+    'reported as inconclusive in evidence',
     'fault injection (c) targets lines the reference layout marks as selected and unmuted',
 ]
 SHARD_MIN = 20
@@ -55,9 +58,48 @@ def _valid(draw):
 
 @st.composite
 def _cases(draw, tier):
-    klass = draw(st.sampled_from(['corrupt', 'corrupt', 'random', 'fault', 'fault', 'valid']))
+    klass = draw(st.sampled_from(['corrupt', 'corrupt', 'random', 'fault', 'fault', 'valid', 'stress']))
     pp = draw(st.sampled_from([None, None, 'listing', 'hex', 'intel_hex', 'minhex']))
     pre = draw(st.booleans())
+    if klass == 'stress':
+        # long identifiers, long runs of blanks, deep nesting, long operator chains - legal and almost-legal
+        n = draw(st.integers(18, 70))
+        w = draw(st.sampled_from(['A', 'ab_', 'x9', 'Q'])) * n
+        w = w[:n]
+        sp = draw(st.sampled_from([' ', '\t', ' \t'])) * n
+        shapes = [
+            f'#define {w} 1\n#if {w}\n.byte 1\n#endif',
+            f'#define {w} 1\n#if {w}{sp}{w}\n.byte 1\n#endif',
+            f'#define {w} 1\n#if {w} == 1{sp}\n.byte 1\n#endif',
+            f'.fill 2{sp}3',
+            f'.fill 2,{sp}3',
+            f'.byte {w}',
+            f'{w}:\n.byte 1\n.2byte {w}',
+            f'{w} = 5\n.byte {w}{sp}+{sp}1',
+            f'.org 4{sp}"GLOBAL"',
+            f'.zero 3{sp}; comment',
+            f'jmp {{{w}',
+            f'jmp [{w}',
+            f'mov a, [hl +{sp}{w}',
+            f'.byte ' + '(' * n + '1' + ')' * n,
+            f'.byte ' + '(' * n + '1',
+            f'.byte ' + '+'.join(['1'] * n),
+            f'.byte ' + '-' * n + '1',
+            f'.byte "' + '\\"' * n,
+            f'.cstr "' + 'ab' * n + '"',
+            f'ldi{sp}5',
+            f'nop{sp}nop',
+            f'lbl:{sp}nop',
+            f'#include{sp}"missing.asm"',
+            f'#create_memzone{sp}ZZ{sp}0{sp}1',
+            f'.memzone{sp}GLOBAL',
+            f'#require "{w} >= 1.0.0"',
+            f'.byte 1,{sp}2,{sp}3',
+            f'.byte BYTE1(' * min(n, 40) + '1' + ')' * min(n, 40),
+        ]
+        cfg = draw(G.layout_isa(zones=False, address_sizes=(16,)))
+        body = draw(st.lists(st.sampled_from(shapes), min_size=1, max_size=3))
+        return {'klass': klass, 'isa': cfg, 'files': {'main.asm': '\n'.join(body) + '\n'}, 'pp': pp, 'pre': pre}
     if klass == 'random':
         lines = []
         for _ in range(draw(st.integers(1, 12))):
@@ -193,6 +235,35 @@ def _monitor():
     sys.settrace(tracer)
 
 
+def _shrink_runs(text, length):
+    import re
+    return re.sub(r'(\w)\1{11,}|((?:\w\w)|(?:\w\w\w))\2{5,}|([ \t])[ \t]{11,}|([^\w\s])\4{11,}|(\\")(?:\\"){11,}',
+                  lambda m: (m.group(1) or m.group(2) or m.group(3) or m.group(4) or m.group(5)) *
+                  max(1, length // len(m.group(1) or m.group(2) or m.group(3) or m.group(4) or m.group(5))), text)
+
+
+def scaling_probe(argv, files):
+    """For an input that timed out: re-run it with every long run of repeated characters cut to 10, 12, ... 20 and
+    time each run.  Returns the (length, seconds) series; exponential growth in the run length is the confirmation."""
+    series = []
+    for length in (10, 12, 14, 16, 18, 20, 22):
+        fs = {k: (_shrink_runs(v, length) if k.endswith('.asm') else v) for k, v in files.items()}
+        r = runner.run_forked(argv, fs, timeout_s=12, crosscheck=False)
+        series.append((length, None if r.timed_out else round(r.wall_s, 3)))
+        if r.timed_out:
+            break
+    return series
+
+
+def exponential(series):
+    ts = [(n, t) for n, t in series]
+    blow = 0
+    for (n1, t1), (n2, t2) in zip(ts, ts[1:]):
+        if t1 is not None and t1 >= 0.15 and (t2 is None or t2 >= 2.5 * t1):
+            blow += 1
+    return blow >= 2
+
+
 def execute(case, ctx):
     cfg = isagen.fix_int_keys(copy.deepcopy(case['isa']))
     fname, text = isagen.dump_isa(cfg, 'yaml')
@@ -227,7 +298,12 @@ def execute(case, ctx):
         if mres.exit_code == 99 and 'NONPROGRESS' in mres.stderr:
             findings.append(Finding('C14/does-not-terminate', detail))
         else:
-            classes.append('timeout-inconclusive')
+            series = scaling_probe(argv, files)
+            detail['scaling_probe_seconds_by_run_length'] = series
+            if exponential(series):
+                findings.append(Finding('C14/does-not-terminate/time-grows-exponentially-with-input-length', detail))
+            else:
+                classes.append('timeout-inconclusive')
         return Outcome(findings, True, classes + ['outcome:timeout'], 2, sample={'class': klass, 'sources': detail['sources']})
     touched = 'out.bin' in res.outputs
     if res.exit_code != 0 and touched:
